@@ -93,3 +93,7 @@ def _blame(E, env1, tol):
     if rg.is_boundary(E) or rg.has(E, rg.is_boundary):
         return "boundary:" + geo.node_label(geo._strip_boundary(E) if E["t"] != "product" else E)
     return geo.node_label(E)
+
+
+def extra_cases(tier, seed):
+    return sampling.pinned_scenarios(seed)
